@@ -187,6 +187,14 @@ func (s *specState) nextRecord() (rec string, ok bool, bad bool) {
 				} else {
 					s.fnr = n
 				}
+			case name == "ARGC":
+				// setVarByName assigns the special variable at once: the operand walk of this very
+				// nextLine call goes on with the new operand count
+				n, err := strconv.Atoi(val)
+				if err != nil || strconv.Itoa(n) != val {
+					panic(ctlUnsupported{})
+				}
+				s.argc = n
 			case strings.ToUpper(name) == name:
 				panic(ctlUnsupported{})
 			default:
